@@ -84,7 +84,10 @@ FailsFlip(e) ==
              Chk(e.err = "other", "decompressor / checksum rejects the block but ReadFile reported success")
              \o Chk(DeliveredIs(e, RecsUpTo(pf.blocks, k - 1)), "a record of the block whose payload failed decompression / checksum was delivered (or earlier records are missing)")
         ELSE IF e.dec.same THEN Chk(e.err = "none" /\ DeliveredIs(e, total), "payload still decompresses to the same data but the read differs")
-        ELSE Chk(DeliveredPrefixBetween(e, RecsUpTo(pf.blocks, k - 1), total + 1000000), "records before the damaged block are wrong")   \* accepted by the independent decompressor: only earlier blocks are demanded
+        \* the independent decompressor accepts the damaged payload (with different data): nothing is
+        \* demanded of this block; the records of the earlier blocks must still have been delivered intact
+        ELSE LET n0 == RecsUpTo(pf.blocks, k - 1) IN
+             Chk(Len(e.delivered) >= n0 /\ \A i \in 1..n0 : SameValue(inputs[i], e.delivered[i]), "records before the damaged block are wrong")
       ELSE <<"flip in block framing (not a C07 site)">>)
 
 \* damaged headers (stand-alone files built by the harness's own writer)
